@@ -102,7 +102,7 @@ def find_unmarshallable(x, path='', depth=0):
       if type(k) not in _EXACT:
         if isinstance(k, str):
           return ('dict-key-str-subclass', path + '{key}')
-        return ('dict-key-%s' % type(k).__name__, path + '{key}')
+        return ('dict-key-non-str', path + '{key} (%s)' % type(k).__name__)
       r = find_unmarshallable(y, '%s{%s}' % (path, k if isinstance(k, str) and len(k) < 12 else '.') if depth < 6 else path,
                               depth + 1)
       if r:
@@ -111,7 +111,7 @@ def find_unmarshallable(x, path='', depth=0):
   for base in (str, int, float, bytes, list, tuple, dict):
     if isinstance(x, base):
       return ('value:%s-subclass' % base.__name__, path)
-  return ('value:%s' % t.__name__, path)
+  return ('value:object', '%s (%s)' % (path, t.__name__))
 
 
 def first_difference(a, b):
